@@ -61,6 +61,28 @@ def subharmonic_screen(r0, N, delta, L0, l0, seed):
         lo = lo + SH
     lo = lo.real - lo.real.mean()
     return lo + hi
+
+
+def subharmonic_screen_flat(r0, N, delta, L0, l0, seed):
+    # the same sum with the nine frequencies of each grid enumerated in one flat (row-major) loop over the 3 x 3 arrays
+    R = numpy.random.default_rng(seed)
+    hi = fft_screen(r0, N, delta, L0, l0, seed)
+    c = numpy.arange(-N / 2., N / 2.) * delta
+    x, y = numpy.meshgrid(c, c)
+    lo = numpy.zeros((N, N))
+    for p in range(1, 4):
+        del_f = 1. / (3 ** p * N * delta)
+        k = numpy.arange(-1, 2)
+        fx, fy = numpy.meshgrid(k * del_f, k * del_f)
+        P = psd(fx ** 2 + fy ** 2, r0, L0, l0)
+        P[1, 1] = 0
+        cn = (R.normal(size=(3, 3)) + 1j * R.normal(size=(3, 3))) * numpy.sqrt(P) * del_f
+        SH = numpy.zeros((N, N))
+        for a, fa, fb in zip(cn.ravel(), fx.ravel(), fy.ravel()):
+            SH += a * numpy.exp(1j * 2 * numpy.pi * (fa * x + fb * y))
+        lo = lo + SH
+    lo = lo.real - lo.real.mean()
+    return lo + hi
 '''
 
 
@@ -135,7 +157,12 @@ def run(rep, tier, root=None):
         wo = IO.returns(fo, [r0, N, delta, L0, l0, seed])[0][1]
         cv, cw = canon(v), canon(wo)
         results[name] = (f, v, cv)
-        if same_value(cv, cw):
+        alt_ok = False
+        if not same_value(cv, cw) and oname + "_flat" in ix.module(om.name).funcs:
+            # the sum over the nine frequencies of a 3 x 3 grid may equally be written as one flat row-major loop
+            wo2 = IO.returns(ix.func(om.name, oname + "_flat"), [r0, N, delta, L0, l0, seed])[0][1]
+            alt_ok = same_value(cv, canon(wo2))
+        if same_value(cv, cw) or alt_ok:
             rep.ok("P0.law", f.fq + " == oracle " + oname, "normal forms identical (%d chars)" % len(nf(cv, 10 ** 6)))
         else:
             only_code, only_orc = atom_diff(cv, cw)
